@@ -357,7 +357,7 @@ func (macDHCP) MACByIP(ip netip.Addr) net.HardwareAddr {
 func allRequests() []request {
 	var out []request
 	for _, n := range []string{"ignored.test", "IGNORED.Test", "sub.ignored.test", "other.test"} {
-		for _, a := range []string{"10.0.0.1", "10.0.0.77", "192.168.5.5", "2001:db8::1234:5678:9abc:def0", "::ffff:10.0.0.1"} {
+		for _, a := range []string{"10.0.0.1", "10.0.0.77", "192.168.5.5", "2001:db8:aa:bb:1234:5678:9abc:def0", "::ffff:10.0.0.1"} {
 			for _, cid := range []bool{false, true} {
 				out = append(out, request{Name: n, Qtype: "A", Addr: a, CID: cid})
 			}
@@ -461,10 +461,10 @@ func (e *env) restartPass() {
 	// Records written with anonymisation off, then served with anonymisation on:
 	// nothing in the API answer may carry the full address (not only the
 	// "client" field: client_info, disallowed_rule, ...).
-	scens = append(scens, scen{kind: "anonymised-later", anon2: true, disallowed2: []string{"10.0.0.1", "2001:db8::1234:5678:9abc:def0"},
+	scens = append(scens, scen{kind: "anonymised-later", anon2: true, disallowed2: []string{"10.0.0.1", "2001:db8:aa:bb:1234:5678:9abc:def0"},
 		clients: func(bool) []srv.ClientSpec { return nil },
-		reqs:    []q{{"a.test", "", "10.0.0.1"}, {"b.test", "", "2001:db8::1234:5678:9abc:def0"}, {"c.test", "", "192.168.7.7"}}, visible: 3,
-		forbidden: []string{"10.0.0.1", "2001:db8::1234:5678:9abc:def0", "192.168.7.7"}})
+		reqs:    []q{{"a.test", "", "10.0.0.1"}, {"b.test", "", "2001:db8:aa:bb:1234:5678:9abc:def0"}, {"c.test", "", "192.168.7.7"}}, visible: 3,
+		forbidden: []string{"10.0.0.1", "2001:db8:aa:bb:1234:5678:9abc:def0", "192.168.7.7"}})
 	for _, sc := range scens {
 		dir, _ := os.MkdirTemp(e.dir, "c08r-")
 		leak := ""
